@@ -241,6 +241,9 @@ class Program:
         from . import normalise, alpha
         trees = {rel: parse_module(src, rel) for mod, rel, src in pending}
         # syntactic sugar first (applies to every tree): walrus, conditional expressions, all/any ...
+        self.specialised_parameters = normalise.specialise_new_parameters(trees)
+        if self.specialised_parameters:
+            normalise.prune_constant_branches(trees, only=set(self.specialised_parameters))
         normalise.sugar_passes(trees)
         self.inlined_constants = normalise.inline_new_constants(trees)
         self.expanded_helpers = normalise.expand_new_helpers(trees)
